@@ -299,16 +299,37 @@ class SymPattern:
         seq = list(parsed)
         while len(seq) == 1 and seq[0][0] is _sre_c.SUBPATTERN:
             seq = list(seq[0][1][3])
-        if not (len(seq) == 1 and seq[0][0] is _sre_c.BRANCH):
-            raise EngineUnsupported("regex shape for search()")
+        branches = seq[0][1][1] if (len(seq) == 1 and seq[0][0] is _sre_c.BRANCH) else [seq]
         alts = []
-        for alt in seq[0][1][1]:
+        for alt in branches:
             alt = list(alt)
             anchored = bool(alt) and alt[0][0] is _sre_c.AT and alt[0][1] in (_sre_c.AT_BEGINNING, _sre_c.AT_BEGINNING_STRING)
             if anchored:
                 alt = alt[1:]
+            left = RL.EPS if anchored else RL.ALL
+            if not anchored and alt and alt[0][0] is _sre_c.ASSERT_NOT and alt[0][1][0] == -1:
+                # `(?<!X)Y` found somewhere (X one character) <=> Y at the very start, or after a character that is not X
+                inner = list(alt[0][1][1])
+                if len(inner) != 1:
+                    raise EngineUnsupported("negative look-behind of more than one character")
+                op, av = inner[0]
+                if op is _sre_c.LITERAL:
+                    notx = RL.cset(RL.cset_not(((av, av),)))
+                elif op is _sre_c.NOT_LITERAL:
+                    notx = RL.cset([(av, av)])
+                elif op is _sre_c.IN:
+                    items = list(av)
+                    if any(o is _sre_c.NEGATE for o, _ in items):
+                        items = [(o, a) for o, a in items if o is not _sre_c.NEGATE]
+                    else:
+                        items = [(_sre_c.NEGATE, None)] + items
+                    notx = _set_to_rx(items)
+                else:
+                    raise EngineUnsupported("negative look-behind shape")
+                left = RL.alt(RL.EPS, RL.cat(RL.ALL, notx))
+                alt = alt[1:]
             body = _seq_to_rx(alt, parsed.state.flags, "consume")
-            alts.append(RL.cat(RL.EPS if anchored else RL.ALL, RL.cat(body, RL.ALL)))
+            alts.append(RL.cat(left, RL.cat(body, RL.ALL)))
         return RL.alt(*alts)
 
     def match_rx(self):
